@@ -93,17 +93,11 @@ def network_simplex(
     root = n
 
     # Spanning tree: parent[i] = parent node, pred[i] = arc to parent, depth[i] = tree depth
-    # thread/rev_thread = preorder traversal links for fast subtree iteration
     parent = [root] * total_nodes
     parent[root] = -1
     pred = list(range(m, m + n)) + [-1]
     depth = [1] * total_nodes
     depth[root] = 0
-    thread = list(range(1, total_nodes)) + [0]
-    thread[n - 1] = root
-    thread[root] = 0
-    rev_thread = [root] + list(range(total_nodes - 1))
-    rev_thread[root] = n - 1
 
     # pi[i] = node potential (dual variable); reduced cost = cost - pi[src] + pi[tgt]
     pi = [0.0] * total_nodes
@@ -225,60 +219,33 @@ def network_simplex(
                 state[arc] = 0
 
         if leaving != entering:
-            if leaving_first:
-                leaving_node = first
-                while pred[leaving_node] != leaving:
-                    leaving_node = parent[leaving_node]
-                new_parent = second
-            else:
-                leaving_node = second
-                while pred[leaving_node] != leaving:
-                    leaving_node = parent[leaving_node]
-                new_parent = first
+            # New basis = old tree - leaving + entering. Re-derive parent/pred/depth/potentials from that arc set:
+            # the subtree cut off by the leaving arc hangs from the entering arc and may have to be re-rooted.
+            tree_adj: list[list[tuple[int, int]]] = [[] for _ in range(total_nodes)]
+            for i in range(total_nodes):
+                arc = pred[i]
+                if i != root and arc != leaving:
+                    tree_adj[source[arc]].append((target[arc], arc))
+                    tree_adj[target[arc]].append((source[arc], arc))
+            tree_adj[source[entering]].append((target[entering], entering))
+            tree_adj[target[entering]].append((source[entering], entering))
 
-            prev_thread = rev_thread[leaving_node]
-            subtree_last = leaving_node
-            node = thread[leaving_node]
-            while depth[node] > depth[leaving_node]:
-                subtree_last = node
-                node = thread[node]
-
-            thread[prev_thread] = thread[subtree_last]
-            rev_thread[thread[subtree_last]] = prev_thread
-
-            attach_point = new_parent
-            node = thread[new_parent]
-            while node != new_parent and depth[node] > depth[new_parent]:
-                attach_point = node
-                node = thread[node]
-
-            thread[subtree_last] = thread[attach_point]
-            if thread[attach_point] < total_nodes:
-                rev_thread[thread[attach_point]] = subtree_last
-            thread[attach_point] = leaving_node
-            rev_thread[leaving_node] = attach_point
-
-            parent[leaving_node] = new_parent
-            pred[leaving_node] = entering
-
-            diff = depth[new_parent] + 1 - depth[leaving_node]
-            node = leaving_node
-            while True:
-                depth[node] += diff
-                node = thread[node]
-                if depth[node] <= depth[leaving_node] - diff or node == leaving_node:
-                    break
-
-            node = leaving_node
-            while True:
-                arc = pred[node]
-                if source[arc] == parent[node]:
-                    pi[node] = pi[parent[node]] - cost[arc]
-                else:
-                    pi[node] = pi[parent[node]] + cost[arc]
-                node = thread[node]
-                if depth[node] <= depth[new_parent] or node == leaving_node:
-                    break
+            visited = [False] * total_nodes
+            visited[root] = True
+            stack = [root]
+            while stack:
+                p = stack.pop()
+                for child, arc in tree_adj[p]:
+                    if not visited[child]:
+                        visited[child] = True
+                        parent[child] = p
+                        pred[child] = arc
+                        depth[child] = depth[p] + 1
+                        if source[arc] == child:
+                            pi[child] = pi[p] + cost[arc]
+                        else:
+                            pi[child] = pi[p] - cost[arc]
+                        stack.append(child)
 
     for arc in range(m, total_arcs):
         if flow[arc] > 0:
